@@ -246,6 +246,7 @@ const (
 	EncPlain   = iota // no repeat codes at all
 	EncRepeat         // maximal use of 16/17/18, runs may cross the literal/distance boundary
 	EncNoCross        // repeats, but never across the boundary
+	EncOdd            // legal but unusual: zero runs written as 18/17/explicit 0 followed by 16-repeats of the zero
 )
 
 // Block is the specification of one block.
@@ -292,7 +293,37 @@ func rle(lens []uint8, enc int, boundary int) []clItem {
 				}
 				continue
 			}
-			if v == 0 {
+			if v == 0 && enc == EncOdd && run >= 4 {
+				// the first zeros with 18 (11), 17 (3) or an explicit 0, the rest as "repeat previous length"
+				switch {
+				case run >= 14:
+					out = append(out, clItem{18, 0, 7})
+					run -= 11
+				case run >= 6:
+					out = append(out, clItem{17, 0, 3})
+					run -= 3
+				default:
+					out = append(out, clItem{sym: 0})
+					run--
+				}
+				for run >= 3 {
+					r := run
+					if r > 6 {
+						r = 6
+					}
+					if run-r > 0 && run-r < 3 {
+						r = run - 3 // keep at least 3 for the last repeat
+						if r < 3 {
+							r = 3
+						}
+					}
+					out = append(out, clItem{16, uint32(r - 3), 2})
+					run -= r
+				}
+				for ; run > 0; run-- {
+					out = append(out, clItem{sym: 0})
+				}
+			} else if v == 0 {
 				for run >= 11 {
 					r := run
 					if r > 138 {
